@@ -36,6 +36,8 @@ AsymMeta == UNION { { X(WithMeta(AsymKey(b, p, NONE, NONE), m, MatchAlg(b)), E0 
 AsymEnc == UNION { { X(AsymKey(b, p, NONE, NONE), e @@ [extra |-> x]) : p \in {0, 1}, e \in Enc, x \in ExtraFor(AsymBase[b].kty) } : b \in Bases }
 OctMeta == { X(WithMeta(OctKey(n, "a", NONE, NONE), m, "HS256"), E0 @@ [extra |-> <<>>]) : n \in {32, 64}, m \in Meta }
 OctEnc == { X(OctKey(n, v, NONE, NONE), E0 @@ [extra |-> x]) : n \in OctLens, v \in {"a", "b"}, x \in ExtraFor("oct") }
+          \cup { X(OctKey(n, v, NONE, NONE), E0 @@ [extra |-> <<>>]) : n \in {32, 33, 64},
+                  v \in {"a.end0a", "a.end00", "a.end20", "a.beg00", "a.begff", "a.end3d"} }
 Plain(k) == k.kid = NONE /\ k.use = NONE /\ k.ops = <<>> /\ k.alg = NONE
 Kds == AsymMeta \cup AsymEnc \cup OctMeta \cup OctEnc
 
